@@ -18,9 +18,12 @@ so partially applied transactions *are* states of the memtable), and only then s
 of the batch (`signal`). Readers obtain read timestamps through the oracle steps `begin` /
 `waitCheck` / `procTxnMark`. All steps of all goroutines interleave arbitrarily.
 
+A commit may also be rejected by `sendToWriteCh` after its timestamp was handed out (`reject`:
+`ErrBlockedWrites` while DropPrefix/DropAll have writes blocked, `ErrTxnTooBig`): the committer calls
+`doneCommit` without anything being enqueued; the timestamp stays consumed (DESIGN F11).
+
 Not modelled: value-log writes (they precede the memtable writes of the same batch and are invisible
-to readers), `ErrBlockedWrites`/`ErrTxnTooBig` from `sendToWriteCh` (the committer then calls
-`doneCommit` without applying anything; DESIGN F11), memtable rotation (the entries of a request go
+to readers), memtable rotation (the entries of a request go
 to the then-current memtable; readers search all memtables).
 -/
 namespace Badger
@@ -69,6 +72,8 @@ structure Pipe where
   signalled : List Nat := []
   /-- ghost: requests of completed batches, in order -/
   finished : List Req := []
+  /-- ghost: commit timestamps handed out to commits that `sendToWriteCh` then rejected -/
+  rejected : List Nat := []
 
 def Pipe.opened (detect : Bool) (n : Nat) : Pipe := { sys := Sys.opened false detect n }
 
@@ -84,6 +89,10 @@ inductive PLabel where
   | lock (tid : Nat)
   | stamp (tid : Nat)
   | enqueue (tid : Nat)
+  /-- `sendToWriteCh` returns `ErrBlockedWrites`/`ErrTxnTooBig` after the timestamp was handed out:
+      `orc.doneCommit(commitTs)`, the deferred `writeChLock.Unlock()`, `Commit` returns the error;
+      nothing is enqueued, the timestamp stays consumed -/
+  | reject (tid : Nat)
   | unlock (tid : Nat)
   /-- `doWrites` hands the first `k` queued requests to `writeRequests` -/
   | dequeue (k : Nat)
@@ -129,6 +138,14 @@ def Pipe.step (p : Pipe) : PLabel → Option Pipe
     match p.cph tid with
     | .stamped ts keys =>
       some { p with writeCh := p.writeCh ++ [⟨ts, keys, tid⟩], cph := p.setPh tid (.enqueued ts) }
+    | _ => none
+  | .reject tid =>
+    match p.cph tid with
+    | .stamped ts _ =>
+      match p.sys.step (.doneCommit ts) with
+      | some s => some { p with sys := s, lockHolder := none, cph := p.setPh tid .idle,
+                                rejected := p.rejected ++ [ts] }
+      | none => none
     | _ => none
   | .unlock tid =>
     match p.cph tid with
